@@ -91,6 +91,10 @@ def doBin (op : String) (a b : PV) : Except PyErr PV :=
     | _ => match asInt? a, asInt? b with
       | some x, some y => if y == 0 then err "ZeroDivisionError" "integer modulo by zero" else .ok (.int (pyMod x y))
       | _, _ => binErr "%" a b
+  | "//" =>
+    match asInt? a, asInt? b with
+    | some x, some y => if y == 0 then err "ZeroDivisionError" "integer division or modulo by zero" else .ok (.int (Int.fdiv x y))
+    | _, _ => binErr "//" a b
   | _ => err "Unmodelled" op
 
 def normIndex (i : Int) (n : Nat) : Option Nat :=
